@@ -285,9 +285,25 @@ func runC10(p *P, r *R) {
 		c, ok := v.(*ssa.Call)
 		return ok && p.calleeName(&c.Call) == "(*Session).IsClosed"
 	}
-	for _, ni := range findInstrs(closeFn, isNotifyCh) {
-		ok, res := p.findBadPath(closeFn, []Point{pointOf(ni)}, pathOpts{
-			Discharge: isPeerNotify,
+	// an enqueue notifies the peer only if it succeeded: a failed one (queue full) must fall back to the connection event
+	mPut := p.mPutFamily()
+	mSock := p.mCall("(*Session).waitForSend", "(*Session).waitForSendErr")
+	isPutErr := func(v ssa.Value) bool {
+		return derivedFrom(v, func(x ssa.Value) bool { c, ok := x.(*ssa.Call); return ok && mPut.F(c) }, 4)
+	}
+	var reliably func(f *ssa.Function, starts []Point, depth int) (bool, PathRes)
+	reliably = func(f *ssa.Function, starts []Point, depth int) (bool, PathRes) {
+		return p.findBadPath(f, starts, pathOpts{
+			Discharge: func(in ssa.Instruction) bool {
+				if mSock.F(in) {
+					return true
+				}
+				if g := p.localCallee(in); g != nil && depth > 0 && inFns(g, p.family(closeFn)) && p.may(g, mNotify, 1) {
+					ok, _ := reliably(g, []Point{{g.Blocks[0], -1}}, depth-1)
+					return ok
+				}
+				return false
+			},
 			EdgeOK: func(b *ssa.BasicBlock, i int) bool {
 				ifi := blockIf(b)
 				if ifi == nil {
@@ -297,10 +313,16 @@ func runC10(p *P, r *R) {
 				if c != nil && isSessClosed(c) && (i == 0) == pol {
 					return false // session closed: nobody to notify
 				}
+				if relOn(ifi.Cond, i == 0, isPutErr, isNilConst) == "==" {
+					return false // the element is in the queue: the peer will see it
+				}
 				return true
 			},
 		})
-		r.ob("R10.3", "(*Stream).close: after the local close every exit has notified the peer (queue element or connection event) unless the session is closed", p.ipos(ni), ok, true, "%s", p.pathString(res))
+	}
+	for _, ni := range findInstrs(closeFn, isNotifyCh) {
+		ok, res := reliably(closeFn, []Point{pointOf(ni)}, 2)
+		r.ob("R10.3", "(*Stream).close: after the local close every exit has notified the peer (queue element accepted, or else the connection event) unless the session is closed", p.ipos(ni), ok, true, "%s", p.pathString(res))
 		cleaned := false
 		for _, ci := range findInstrs(closeFn, isClean) {
 			if instrDominates(ci, ni) {
